@@ -68,6 +68,19 @@ package account
 //@   ensures [others] forall k common.Address :: k != address ==> has(al.addresses, k) == old(has(al.addresses, k)) && al.addresses[k] == old(al.addresses[k])
 //@   modifies heap("map[common.Address]int")
 
+// Undoing a slot addition (C04): the slot leaves the list, the ADDRESS stays (it was in the list before the slot
+// was added - either on its own, or its own journal entry follows and removes it), every other address keeps
+// its entry. The precondition is the journal's order discipline: the address is present with a slot map.
+//@ func accessList.DeleteSlot
+//@   property C04
+//@   option maypanic
+//@   requires al != nil && al.addresses != nil
+//@   requires [ordered] has(al.addresses, address) ==> 0 <= al.addresses[address] && al.addresses[address] < len(al.slots) && al.slots[al.addresses[address]] != nil
+//@   ensures [kept]     has(al.addresses, address)
+//@   ensures [slotgone] !has(old(al.slots[al.addresses[address]]), slot)
+//@   ensures [emptied]  len(old(al.slots[al.addresses[address]])) == 0 ==> al.addresses[address] == -1
+//@   ensures [others]   forall k common.Address :: k != address ==> has(al.addresses, k) == old(has(al.addresses, k)) && al.addresses[k] == old(al.addresses[k])
+
 //@ func accessList.ContainsAddress
 //@   property C04
 //@   requires al != nil
